@@ -160,6 +160,8 @@ class EnvSim(Engine):
             fd = {"name": f"h{i}", "type": ["bool"], "params": [], "default": None}
             if rw.random() < 0.3:
                 fd["params"] = [["x0", ["user", rw.choice(tnames)]]]
+            if rw.random() < 0.3:
+                fd["default"] = ["bool", rw.random() < 0.5]
             fluents.append(fd)
         tmpw = {"types": types, "objects": objs, "fluents": fluents}
         for gf in RefSem(tmpw).ground_fluents():
@@ -201,6 +203,10 @@ class EnvSim(Engine):
                 type_defaults.append([["user", ot], ["o", rw.choice(cands)]])
         nn = rw.randint(2, 4)
         init = [[h, ["bool", rw.random() < 0.5]] for h in leftover]
+        # explicit initial values the modeller left on hidden fluents (the drawn hidden state overrides them)
+        if rw.random() < 0.35:
+            for h in rw.sample(hidden, min(len(hidden), rw.randint(1, 2))):
+                init.append([h, ["bool", rw.random() < 0.5]])
         for i in range(nn):
             k = rw.choice(["bool", "int", "user", "int"])
             t = {"bool": ["bool"], "int": ["int", 0, 5], "user": ["user", rw.choice(tnames)]}[k]
